@@ -1300,5 +1300,8 @@ def run(prog, tier, seed):
         dep += adopt(T.results(T(c18.rule_bp5, prog, pf[1], pf[0])), PROP,
                      'a variable outside the ordering raises RuntimeError '
                      'only through the ordering check of the constructor')
+    dep += adopt(T.results(T(c18.rule_bp8, prog)), PROP,
+                 'OBDDs over the empty ordering (constants) are built like '
+                 'any other')
     return T.results(r1, r2, r3, r4, r5, r6, r7) + dep, expl, assumptions, \
         T.extra()
